@@ -5,6 +5,7 @@ Model: Model/Grogu.lean.
 import BandVerif.Model.Grogu
 import BandVerif.Model.GroguSrc
 import BandVerif.Generated.Grogu
+import BandVerif.Lemmas.FeedsSubmit
 
 namespace C20
 open BandVerif.Grogu
@@ -251,5 +252,33 @@ theorem all_finished_nothing_pending (s : Flight) (h : FInv s) (he : s.inFlight 
 example : decideSubmit 30 7 30 50 (some ⟨60, 50⟩) (some ⟨3, 1000, 100⟩) ⟨3, 1005, ⟩ 140 = true := by decide
 example : decideSubmit 30 7 30 50 (some ⟨600, 50⟩) (some ⟨3, 1000, 100⟩) ⟨3, 1004, ⟩ 140 = false := by decide
 example : assignedTime 7 60 100 30 50 = 134 := by decide
+
+/-! ## against the chain's handler itself (Model/FeedsSubmit.lean, tied to `msgServer.SubmitSignalPrices` under C15) -/
+
+/-- the validator's stored price for a signal, as the signaller reads it from the chain -/
+def oldOf (v : BandVerif.FeedsSubmit.VP) : OldPrice := { status := v.status, price := v.price, ts := v.ts }
+
+/-- PROPERTY (only what the chain accepts — against the handler): a batch of decided prices for distinct current signals is
+    accepted by `SubmitSignalPrices` at any block whose time is not more than TimeBuffer seconds behind the signaller's
+    clock, for EVERY stored price list and feed order, provided the validator is required to send and the message
+    timestamp is within the allowed discrepancy (the two checks the submitter leaves to the chain) -/
+theorem decided_batch_accepted_by_handler (cooldown : Int) (h dpOffset dpStart : Nat) (feeds : List String) (feedOf : String → Option Feed)
+    (prev : List BandVerif.FeedsSubmit.VP) (msg : List (String × Nat × Nat)) (now blockTime msgTs height disc : Int)
+    (hnd : (msg.map (·.1)).Nodup) (hsz : msg.length ≤ feeds.length)
+    (hts : BandVerif.FeedsSubmit.absI (msgTs - blockTime) ≤ disc) (hb : blockTime ≥ now - timeBuffer)
+    (hdec : ∀ m ∈ msg, ∃ i, BandVerif.FeedsSubmit.idxOf feeds m.1 = some i ∧
+      decideSubmit cooldown h dpOffset dpStart (feedOf m.1) (some (oldOf ((BandVerif.FeedsSubmit.fill feeds prev).getD i BandVerif.FeedsSubmit.VP.zero)))
+        ⟨m.2.1, m.2.2⟩ now = true) :
+    ∃ out, BandVerif.FeedsSubmit.submit feeds prev msg msgTs blockTime height cooldown disc true = .ok out := by
+  apply BandVerif.FeedsSubmit.admissible_message_accepted feeds prev msg msgTs blockTime height cooldown disc hsz hts hnd
+  intro m hm
+  obtain ⟨i, hi, hd⟩ := hdec m hm
+  refine ⟨i, hi, ?_⟩
+  have := decision_accepted_by_chain cooldown h dpOffset dpStart (feedOf m.1) _ _ now blockTime hd hb
+  unfold chainAccepts at this
+  simp only [Bool.and_eq_true, Bool.or_eq_true, oldOf] at this
+  rcases this.2 with a | b
+  · left; simpa using a
+  · right; exact of_decide_eq_true b
 
 end C20
